@@ -197,6 +197,11 @@ var templates = []tmpl{
 	{"/a {{a exit} loop 1} def a", []string{"execstackoverflow"}},
 	{"/a {b 1} def /b {a 2} def a", []string{"execstackoverflow"}},
 	{"/a {b} def /b {c 1} def /c {a} def a", []string{"execstackoverflow", "stackoverflow"}},
+	// recursion through a name whose value is an executable name
+	{"/a {b} 0 get def /b {a 1} def a", []string{"execstackoverflow"}},
+	{"/a {b} 0 get def /b {a pop} def b", []string{"execstackoverflow", "stackunderflow"}},
+	{"/a {b} 0 get def /b {c} 0 get def /c {a 1} def c", []string{"execstackoverflow"}},
+	{"/a {b} 0 get def /b {{a} exec 1} def a", []string{"execstackoverflow"}},
 	{"{dup exec 1} dup exec", []string{"execstackoverflow"}},
 	{"/p {/p load exec 1} def p", []string{"execstackoverflow"}},
 	{"{1 dict begin} loop", []string{"dictstackoverflow"}},
@@ -339,7 +344,7 @@ func nameRecursionBug(rec *ev.Rec) bool {
 func TestP2Limits(t *testing.T) {
 	rec := ev.New("C11", "limits")
 	defer rec.Finish(t)
-	rec.Rule("recursion and growth templates run with MaxOps = 0 in a child process (a Go stack overflow or a hang is the failure mode): self-call in non-tail position directly and through exec, if, ifelse, repeat, forall (array, string), for, loop; mutual recursion over 2 and 3 names; a procedure applying itself; begin in loops and in recursion, also inside an eexec section entered at dictionary-stack depth 2..21 (the section adds one entry of its own); loops that push (loop, for, repeat, dup, count, inside an open array); error handlers in errordict that fail themselves or loop; exec chains 95-130 deep; array/string/dict requests of 65535 (the PLRM's architectural limit: must succeed), 65537 (success or limitcheck: what counts as oversized between 2^16 and 2^31 is the implementation's choice), 2^31, 2^32, maxint - each wrapped 0-3 times in exec / if / ifelse / repeat / begin / padding. Oracle: the run ends with the PostScript error the template determines (execstackoverflow, stackoverflow, dictstackoverflow, limitcheck ...), operand stack <= 2^20 and dictionary stack <= 2^16 entries (bounds far above the present limits of 500 / 20, which the property does not fix). Non-trivial: template nested >= 2 deep (>= 1 wrapper); distinct by program text.")
+	rec.Rule("recursion and growth templates run with MaxOps = 0 in a child process (a Go stack overflow or a hang is the failure mode): self-call in non-tail position directly and through exec, if, ifelse, repeat, forall (array, string), for, loop; mutual recursion over 2 and 3 names, also through names whose value is an executable name; a procedure applying itself; begin in loops and in recursion, also inside an eexec section entered at dictionary-stack depth 2..21 (the section adds one entry of its own); loops that push (loop, for, repeat, dup, count, inside an open array); error handlers in errordict that fail themselves or loop; exec chains 95-130 deep; array/string/dict requests of 65535 (the PLRM's architectural limit: must succeed), 65537 (success or limitcheck: what counts as oversized between 2^16 and 2^31 is the implementation's choice), 2^31, 2^32, maxint - each wrapped 0-3 times in exec / if / ifelse / repeat / begin / padding. Oracle: the run ends with the PostScript error the template determines (execstackoverflow, stackoverflow, dictstackoverflow, limitcheck ...), operand stack <= 2^20 and dictionary stack <= 2^16 entries (bounds far above the present limits of 500 / 20, which the property does not fix). Non-trivial: template nested >= 2 deep (>= 1 wrapper); distinct by program text.")
 	bug := nameRecursionBug(rec)
 	var cases []limitCase
 	var raws [][]byte
